@@ -151,9 +151,7 @@ theorem fresh_execP (N : Nat) (fdin : Option Handle) : Fresh N (execP fdin) (fun
       refine Fresh.bind (R := fun _ => True) ?_ ?_
       · split
         · refine Fresh.call rfl (subj_none rfl) (fun w _ => ?_)
-          split
-          · split <;> exact trivial
-          · exact trivial
+          split <;> exact trivial
         · exact trivial
       · intro res _
         cases devnull with
